@@ -519,6 +519,7 @@ const (
 type mblk struct {
 	b        *blk
 	h        *sblk
+	hs       []*sblk // every wrapper any ParseBlock / BuildBlock call returned for this block
 	built    bool
 	st       mstat
 	verified bool // the chain really produced an output for it (not just vacuously)
@@ -839,6 +840,27 @@ func (e *eng) checkAccepts(s recSnap, final bool) error {
 	return nil
 }
 
+// checkOnce: the chain verifies a block at most once and at most one verified notification is
+// sent per block, whatever wrappers of it exist (normal operation, no state sync).
+func (e *eng) checkOnce(s recSnap) error {
+	okCalls, notifs := map[ids.ID]int{}, map[ids.ID]int{}
+	for _, c := range s.verCalls {
+		if c.ok && c.b != nil {
+			if okCalls[c.b.id]++; okCalls[c.b.id] > 1 {
+				return fmt.Errorf("the chain verified %s %d times", c.b, okCalls[c.b.id])
+			}
+		}
+	}
+	for _, o := range s.nVer {
+		if o != nil && o.blk != nil {
+			if notifs[o.id]++; notifs[o.id] > 1 {
+				return fmt.Errorf("%d verified notifications for %s", notifs[o.id], o.blk)
+			}
+		}
+	}
+	return nil
+}
+
 func (e *eng) checkRejects(s recSnap) error {
 	if len(s.nRej) != len(e.expRej) {
 		return fmt.Errorf("engine rejected %d verified blocks, rejected subscribers saw %d notifications", len(e.expRej), len(s.nRej))
@@ -988,6 +1010,18 @@ func (e *eng) sweep() error {
 			return fmt.Errorf("GetBlock(processing %s) returned %s", e.blocks[id].b, got)
 		}
 	}
+	if !e.c21 {
+		// snow's own invariant (vm.go: verifiedBlocks = "blocks that passed verification but haven't
+		// yet been accepted or rejected"): a block the engine never verified, dropped or rejected is
+		// not in the processing set, so nothing serves it by id
+		for id, m := range e.blocks {
+			if m.st == sParsed || m.st == sFailed || m.st == sRejected {
+				if got, err := e.vm.GetBlock(ctx, id); err == nil {
+					return fmt.Errorf("GetBlock(%s) returned %s although the engine never verified it or rejected it: the processing set holds a block that is not processing", m.b, got)
+				}
+			}
+		}
+	}
 	// the executed tip (ConsensusIndex.GetLastAccepted) lies on the accepted chain
 	if e.ready && e.ch.ci != nil {
 		a, err := e.ch.ci.GetLastAccepted(ctx)
@@ -1017,6 +1051,15 @@ func (e *eng) learn(b *blk, h *sblk, built bool) *mblk {
 		}
 		if pa, ok := e.AD[b.Prnt]; ok {
 			e.AD[b.id] = nextDigest('a', pa, b.id)
+		}
+	}
+	if h != nil {
+		dup := false
+		for _, x := range m.hs {
+			dup = dup || x == h
+		}
+		if !dup {
+			m.hs = append(m.hs, h)
 		}
 	}
 	if m.st != sProcessing && m.st != sAccepted {
@@ -1107,6 +1150,25 @@ func (e *eng) verify(m *mblk, pctx uint64) error {
 		}
 	}
 	e.becomeProcessing(m, true)
+	return e.echoParse(m, "processing (verified)")
+}
+
+// echoParse: the engine is handed the bytes of a block it has just verified / accepted once more
+// (duplicate gossip). Whatever stale wrappers of the block exist, the wrapper returned now is in
+// the verified state. For such blocks ParseBlock is answered from the processing set / accepted
+// cache, so this does not disturb the parsed-block cache.
+func (e *eng) echoParse(m *mblk, what string) error {
+	if e.c21 || !e.ready {
+		return nil
+	}
+	h, err := e.vm.ParseBlock(e.ctx, m.b.raw)
+	if err != nil || h.ID() != m.b.id {
+		return fmt.Errorf("ParseBlock(%s) of a %s block = %v, %v", m.b, what, h, err)
+	}
+	e.learn(m.b, h, false)
+	if h.Output == nil || h.Output.blk == nil || h.Output.id != m.b.id || h.Output.Digest != e.D[m.b.id] {
+		return fmt.Errorf("ParseBlock(%s) of a %s block returned an unverified wrapper %s (output %s); %d wrappers of the block exist", m.b, what, h, h.Output, len(m.hs))
+	}
 	return nil
 }
 
@@ -1180,6 +1242,9 @@ func (e *eng) acceptOne(id ids.ID, lastOfPath bool) error {
 	if e.ready {
 		e.expAcc = append(e.expAcc, id)
 		e.engAcc++
+		if err := e.echoParse(m, "last accepted"); err != nil {
+			return err
+		}
 	}
 	s := e.rec.snap()
 	if err := e.checkIdx(s, id); err != nil {
@@ -1387,6 +1452,20 @@ func (e *eng) step(o op) (bool, error) {
 			all = append(all, id)
 		}
 		sort.Slice(all, func(i, j int) bool { return e.blocks[all[i]].b.Payload < e.blocks[all[j]].b.Payload })
+		// o.B narrows the choice: 1 = blocks learned but not verified yet, 2 = blocks of which
+		// several wrappers exist (falls back to all known blocks)
+		if o.B == 1 || o.B == 2 {
+			var sub []ids.ID
+			for _, id := range all {
+				m := e.blocks[id]
+				if (o.B == 1 && (m.st == sParsed || m.st == sFailed) && !m.built) || (o.B == 2 && len(m.hs) > 1) {
+					sub = append(sub, id)
+				}
+			}
+			if len(sub) > 0 {
+				all = sub
+			}
+		}
 		id := pickRecent(all, o.A)
 		m := e.blocks[id]
 		h, err := e.vm.ParseBlock(e.ctx, m.b.raw)
@@ -1396,16 +1475,99 @@ func (e *eng) step(o op) (bool, error) {
 		if h.ID() != id {
 			return false, fmt.Errorf("ParseBlock(known %s) returned %s", m.b, h)
 		}
+		nw := len(m.hs)
 		e.learn(m.b, h, false)
+		if len(m.hs) > 1 && len(m.hs) > nw {
+			e.label("second-wrapper-of-a-block")
+		}
 		e.label(fmt.Sprintf("parse-known-%s", [...]string{"parsed", "processing", "accepted", "rejected", "failed"}[m.st]))
-		// a block that failed earlier for a reason that no longer holds is not retried here;
-		// a known-but-never-verified valid block with a live parent is issued like a new one
-		if m.st == sParsed || m.st == sFailed {
+		// a processing block (and the last accepted one, which is always cached) comes back in its
+		// verified state: the verified wrapper itself or at least one carrying the chain's output
+		if e.ready && ((m.st == sProcessing && m.verified) || (id == e.last && m.verified)) {
+			if h.Output == nil || h.Output.blk == nil || h.Output.id != id || h.Output.Digest != e.D[id] {
+				return false, fmt.Errorf("ParseBlock(%s) of a %s block returned an unverified wrapper %s (output %s)", m.b, map[bool]string{true: "processing (verified)", false: "last accepted"}[m.st == sProcessing], h, h.Output)
+			}
+			if m.st == sProcessing && h != m.h {
+				e.label("parse-of-processing-returned-another-object")
+			}
+		}
+	case "po":
+		// parse only: the engine learns a block (e.g. from gossip) and does not issue it yet
+		if _, err := e.parseNew(pickRecent(e.candidates(), o.A), o.Inv); err != nil {
+			return false, err
+		}
+	case "vf":
+		// issue a block the engine learned earlier, through any wrapper it was ever handed
+		var cands []ids.ID
+		for id, m := range e.blocks {
 			pm := e.blocks[m.b.Prnt]
-			if pm != nil && (pm.st == sProcessing || m.b.Prnt == e.last) && (!e.ready || pm.verified) && !m.built {
-				if err := e.verify(m, 0); err != nil {
-					return false, err
-				}
+			if (m.st == sParsed || m.st == sFailed) && !m.built && len(m.hs) > 0 && pm != nil &&
+				(pm.st == sProcessing || m.b.Prnt == e.last) && (!e.ready || pm.verified) {
+				cands = append(cands, id)
+			}
+		}
+		if len(cands) == 0 {
+			return true, nil
+		}
+		sort.Slice(cands, func(i, j int) bool { return e.blocks[cands[i]].b.Payload < e.blocks[cands[j]].b.Payload })
+		m := e.blocks[pickRecent(cands, o.A)]
+		w := o.B % len(m.hs)
+		if w < 0 {
+			w = -w
+		}
+		m.h = m.hs[w]
+		if len(m.hs) > 1 && w < len(m.hs)-1 {
+			e.label("verify-through-older-wrapper")
+		}
+		parent := m.b.Prnt
+		if err := e.verify(m, 0); err != nil {
+			return false, err
+		}
+		if m.st == sProcessing && parent == e.pref {
+			if err := e.setPref(m.b.id); err != nil {
+				return false, err
+			}
+		}
+	case "dup":
+		// the engine is sent the bytes of a block it has learned but not issued once more, after
+		// the parsed-block cache has forgotten it: a second wrapper of the same block exists
+		var cands []ids.ID
+		for id, m := range e.blocks {
+			if (m.st == sParsed || m.st == sFailed) && !m.built && len(m.hs) > 0 {
+				cands = append(cands, id)
+			}
+		}
+		if len(cands) == 0 {
+			return true, nil
+		}
+		sort.Slice(cands, func(i, j int) bool { return e.blocks[cands[i]].b.Payload < e.blocks[cands[j]].b.Payload })
+		m := e.blocks[pickRecent(cands, o.A)]
+		for i := 0; i < 4; i++ { // more than any parsed-block cache size the generator draws
+			var p ids.ID
+			binary.BigEndian.PutUint64(p[:], e.nextPayload())
+			b := newBlk(p, ^uint64(0), 1<<62, e.payload, false, 0)
+			if h, err := e.vm.ParseBlock(e.ctx, b.raw); err != nil || h.ID() != b.id {
+				return false, fmt.Errorf("ParseBlock(unrelated %s) = %v, %v", b, h, err)
+			}
+		}
+		h, err := e.vm.ParseBlock(e.ctx, m.b.raw)
+		if err != nil || h.ID() != m.b.id {
+			return false, fmt.Errorf("ParseBlock(known %s) = %v, %v", m.b, h, err)
+		}
+		nw := len(m.hs)
+		e.learn(m.b, h, false)
+		if len(m.hs) > nw {
+			e.label("second-wrapper-of-a-block")
+			e.label("second-wrapper-of-an-unverified-block")
+		}
+	case "evict":
+		// parse o.A+1 unrelated blocks: pushes older entries out of the parsed-block cache
+		for i := 0; i <= o.A%4; i++ {
+			var p ids.ID
+			binary.BigEndian.PutUint64(p[:], e.nextPayload())
+			b := newBlk(p, ^uint64(0), 1<<62, e.payload, false, 0)
+			if h, err := e.vm.ParseBlock(e.ctx, b.raw); err != nil || h.ID() != b.id {
+				return false, fmt.Errorf("ParseBlock(unrelated %s) = %v, %v", b, h, err)
 			}
 		}
 	case "future":
